@@ -518,6 +518,14 @@ def program_equivalence(prog1, prog2, compare_params=True, atol=1e-6, rtol=0):
 
             elif (
                 len(n.reg) > 1
+                and n.op.__class__.__name__.startswith("Measure")
+                and measurement_options(n.op) != (None, None)
+            ):
+                # the i-th post-selection value / dark count rate belongs to the i-th listed mode
+                wire_mapping[i] = [j.ind for j in n.reg]
+
+            elif (
+                len(n.reg) > 1
                 and n.op.__class__.__name__ not in ("S2gate", "CZgate", "CKgate")
                 and not n.op.__class__.__name__.startswith("Measure")
             ):
